@@ -28,6 +28,7 @@ template<class K> struct StaticCase {
     std::vector<K> queries;
     int threads = 1;
     int procs = 32; ///< value reported by the interposed omp_get_num_procs(): chunks = min(procs, threads, 20)
+    int lifecycle = -1; ///< how the queried object came to be (see object_lifecycle); -1: derived from the input hash
     std::string family;
     bool chunked = false;
     std::vector<size_t> seams; // indices of interest (chunk boundaries) for chunked cases
@@ -254,6 +255,7 @@ StaticCase<K> make_static_case(Ctx &c, size_t eps, bool chunked, size_t maxn_sma
         sc.queries = c.given->vec<K>("queries");
         sc.threads = c.given->one<int>("threads", 1);
         sc.procs = c.given->one<int>("procs", 32);
+        sc.lifecycle = c.given->one<int>("lifecycle", 0);
         sc.family = c.given->one_str("family", "spec");
         sc.chunked = sc.keys.size() >= (1u << 15) && sc.threads > 1;
         sc.seams = c.given->vec<size_t>("seams");
@@ -293,6 +295,7 @@ template<class K> Spec static_spec(const Ctx &c, const StaticCase<K> &sc, const 
     s.set_one("family", sc.family);
     s.set_one("threads", sc.threads);
     s.set_one("procs", sc.procs);
+    s.set_one("lifecycle", sc.lifecycle);
     s.set_vec("keys", sc.keys);
     if (queries_run.size() <= 2000) s.set_vec("queries", queries_run);
     if (!sc.seams.empty()) s.set_vec("seams", sc.seams);
@@ -320,6 +323,45 @@ struct NoExtra {
     template<class K> bool tolerate(const std::exception &, const StaticCase<K> &) { return false; }
     template<class K> const char *exception_region(const StaticCase<K> &) { return ""; }
 };
+
+/// 0..3: the object as constructed; 4: copy-constructed, source destroyed; 5: move-constructed, source destroyed;
+/// 6: copy-assigned to a default-constructed object, source destroyed; 7: held in a std::vector that reallocates.
+template<class Idx>
+std::unique_ptr<Idx> object_lifecycle(Ctx &c, std::unique_ptr<Idx> src, int mode) {
+    std::unique_ptr<Idx> out;
+    if constexpr (std::is_copy_constructible_v<Idx> && std::is_move_constructible_v<Idx>) {
+        if (mode == 4) {
+            out.reset(new Idx(*src));
+            c.count("objects_copy_constructed");
+        } else if (mode == 5) {
+            out.reset(new Idx(std::move(*src)));
+            c.count("objects_move_constructed");
+        } else if (mode == 6) {
+            if constexpr (std::is_default_constructible_v<Idx> && std::is_copy_assignable_v<Idx>) {
+                out.reset(new Idx());
+                *out = *src;
+                c.count("objects_copy_assigned");
+            }
+        } else if (mode == 7) {
+            std::vector<Idx> v;
+            v.push_back(std::move(*src));
+            src.reset();
+            for (int i = 0; i < 3; ++i) {
+                v.push_back(v.front()); // copies, and relocates the elements when the capacity is exceeded
+                v.erase(v.begin());
+            }
+            v.reserve(v.capacity() + 5);
+            out.reset(new Idx(std::move(v.back())));
+            c.count("objects_relocated_in_vector");
+        }
+    }
+    if (!out) {
+        c.count("objects_as_constructed");
+        return src;
+    }
+    src.reset(); // the source is gone before the first query
+    return out;
+}
 
 /// The common body: build, query, judge.  `Which` selects the oracle clauses:
 ///   'P' present keys only (C01), 'L' all queries, lower-bound clause (C02), 'B' both + width for every query
@@ -357,6 +399,12 @@ void run_static(Ctx &c, StaticCase<K> &sc, char which, Extra &extra) {
     }
     set_threads(1);
     std::unique_ptr<Idx> guard(idx);
+    // The object that answers the queries is not always the one the constructor produced: an index held by value is
+    // copied, moved, assigned and relocated by containers, and remains "the index over this sequence". Half of the cases
+    // query the constructed object, the others a copy / moved-to / assigned-to object whose source has been destroyed.
+    if (sc.lifecycle < 0) sc.lifecycle = n > (size_t(1) << 22) ? 0 : int(mix(c.input_hash, 0x11fec7c1e) % 8);
+    guard = object_lifecycle(c, std::move(guard), sc.lifecycle);
+    idx = guard.get();
     extra.after_build(c, *idx, sc);
 
     // queries
